@@ -65,12 +65,25 @@ func (p *CloseProbe) Go(f func()) {
 	<-ready
 }
 
+// GoDaemon starts a harness goroutine that is not an operation: Finish does not wait for it (the harness stops it itself).
+func (p *CloseProbe) GoDaemon(f func()) {
+	ready := make(chan struct{})
+	go func() {
+		p.mu.Lock()
+		p.harness[strconv.FormatInt(CurGID(), 10)] = true
+		p.mu.Unlock()
+		close(ready)
+		f()
+	}()
+	<-ready
+}
+
 func (p *CloseProbe) instance(blockedOnly bool) []GoroutineState {
 	var out []GoroutineState
 	p.mu.Lock()
 	defer p.mu.Unlock()
 	for _, g := range Census(true) {
-		if p.before[g.ID] || p.harness[g.ID] || strings.Contains(g.Stack, "verifsim.(*CloseProbe).Go") {
+		if p.before[g.ID] || p.harness[g.ID] || strings.Contains(g.Stack, "verifsim.(*CloseProbe).Go") || strings.Contains(g.Stack, "verifsim.(*CloseProbe).GoDaemon") {
 			continue // (a harness goroutine that has not registered its id yet is recognised by its creator frame)
 		}
 		if blockedOnly && (strings.HasPrefix(g.State, "running") || strings.HasPrefix(g.State, "runnable")) {
